@@ -227,7 +227,7 @@ def state_key(spec):
 
 
 def budget(tier):
-    return {"timeout": 300.0, "per_path": 30.0}
+    return {"timeout": 240.0, "per_path": 30.0}
 
 
 META = {
